@@ -742,7 +742,8 @@ def c17(tier):
             "{ { RyV = 3; RyV = RyV + 1; } RxV = RyV; }", "{ RxV = ({ RyV = 3; RyV; }); { RzV = RxV; } }"]
     # token classification: register / .new / explicit / alias / immediate / identifier look-alikes
     look = ["RsVx", "siVal", "P4", "R32", "RsW", "Rs", "sV", "RssVV", "xRsV", "HEX_REG_ALIAS", "HEX_REG_ALIAS_", "riv", "RIV",
-            "R0x", "P0_NEWS", "NsNx", "EAx", "ii", "RsV_", "_RsV", "MuVV", "CsVx", "uiV2", "iV"]
+            "R0x", "P0_NEWS", "NsNx", "EAx", "ii", "RsV_", "_RsV", "MuVV", "CsVx", "uiV2", "iV",
+            "s1", "p0", "c00", "r3", "m0", "g1", "r1_0", "rsV", "hex_reg_alias_sp", "p3_new", "jump", "MEM_LOAD", "siv", "Rsv"]
     for l in look:
         out.append(f"{{ int32_t {l} = RtV; RxV = {l} + 1; }}")
         out.append(f"{{ RxV = {l}; }}")
